@@ -230,4 +230,99 @@ theorem collectString_lit (s : List UInt8) :
       have := ih txt' n' h3 buf (pos + pre.length) rest (v :: acc) fuel hs2 (by simp at hf; omega) (by omega)
       simp [collectString, h5, this]; omega
 
+
+/-! ### hexadecimal strings -/
+
+open PdfSyntax (HexWs hexVal)
+
+theorem isHexWs_eq : ∀ b, isHexWs b = PdfSyntax.isWs b := by decide +kernel
+
+theorem hexVal_facts : ∀ c v : UInt8, hexVal c = some v → hexDigitVal c = some v ∧ v < 16 ∧ PdfSyntax.isWs c = false ∧ c ≠ 62 := by
+  intro c
+  revert c
+  decide +kernel
+
+theorem nibble_combine2 : ∀ a b : Fin 16, ((UInt8.ofNat a.val) <<< 4) ||| (UInt8.ofNat b.val) = (UInt8.ofNat a.val) * 16 + (UInt8.ofNat b.val) := by
+  decide
+
+theorem nibble_combine2' (a b : UInt8) (ha : a < 16) (hb : b < 16) : (a <<< 4) ||| b = a * 16 + b := by
+  have := nibble_combine2 ⟨a.toNat, UInt8.lt_iff_toNat_lt.mp ha⟩ ⟨b.toNat, UInt8.lt_iff_toNat_lt.mp hb⟩
+  simpa using this
+
+theorem nibble_shift : ∀ a : Fin 16, (UInt8.ofNat a.val) <<< 4 = (UInt8.ofNat a.val) * 16 := by decide
+
+theorem nibble_shift' (a : UInt8) (ha : a < 16) : a <<< 4 = a * 16 := by
+  have := nibble_shift ⟨a.toNat, UInt8.lt_iff_toNat_lt.mp ha⟩
+  simpa using this
+
+theorem nextNonWs_skip {buf : Buf} (w : List UInt8) (c : UInt8) (s : List UInt8) (hw : HexWs w)
+    (hc : PdfSyntax.isWs c = false) : ∀ (pos fuel : Nat), Suffix buf pos (w ++ c :: s) → w.length + 1 ≤ fuel →
+    nextNonWs buf fuel pos = .ok (c, pos + w.length + 1) := by
+  induction w with
+  | nil =>
+    intro pos fuel h hf
+    obtain ⟨fuel, rfl⟩ : ∃ f', fuel = f' + 1 := ⟨fuel - 1, by simp at hf; omega⟩
+    have h' : Suffix buf pos (c :: s) := by simpa using h
+    simp [nextNonWs, h'.get0, isHexWs_eq, hc]
+  | cons b w ih =>
+    intro pos fuel h hf
+    obtain ⟨fuel, rfl⟩ : ∃ f', fuel = f' + 1 := ⟨fuel - 1, by simp at hf; omega⟩
+    have h' : Suffix buf pos (b :: (w ++ c :: s)) := by simpa using h
+    have hb : PdfSyntax.isWs b = true := hw b (by simp)
+    have := ih (fun x hx => hw x (by simp [hx])) (pos + 1) fuel h'.tail (by simp at hf; omega)
+    simp [nextNonWs, h'.get0, isHexWs_eq, hb, this]; omega
+
+theorem nextNonWs_at {buf : Buf} (w : List UInt8) (c : UInt8) (s : List UInt8) (hw : HexWs w)
+    (hc : PdfSyntax.isWs c = false) (pos : Nat) (h : Suffix buf pos (w ++ c :: s)) :
+    nextNonWs buf (buf.size - pos + 1) pos = .ok (c, pos + w.length + 1) := by
+  apply nextNonWs_skip w c s hw hc pos _ h
+  have := h.size_sub; simp at this; omega
+
+/-- the `HexStringLexer` loop reads a conformant hexadecimal-string body as the bytes it denotes and stops
+    right after `>` -/
+theorem collectHex_hex (txt s : List UInt8) (h : HexBody txt s) :
+    ∀ (buf : Buf) (base pos : Nat) (rest acc : List UInt8) (fuel : Nat), Suffix buf pos (txt ++ rest) → base ≤ pos →
+      txt.length + 1 ≤ fuel → collectHex buf base fuel pos acc = .ok (acc.reverse ++ s, pos + txt.length) := by
+  induction h with
+  | close w hw =>
+    intro buf base pos rest acc fuel hs hb hf
+    obtain ⟨fuel, rfl⟩ : ∃ f', fuel = f' + 1 := ⟨fuel - 1, by omega⟩
+    have hs' : Suffix buf pos (w ++ 62 :: rest) := by simpa using hs
+    simp [collectHex, nextHexByte, nextNonWs_at w 62 rest hw (by decide) pos hs']; omega
+  | byte w1 w2 h1 h2 v1 v2 r s hw1 hw2 hv1 hv2 hr ih =>
+    intro buf base pos rest acc fuel hs hb hf
+    obtain ⟨fuel, rfl⟩ : ∃ f', fuel = f' + 1 := ⟨fuel - 1, by omega⟩
+    obtain ⟨d1, l1, nw1, ne1⟩ := hexVal_facts h1 v1 hv1
+    obtain ⟨d2, l2, nw2, ne2⟩ := hexVal_facts h2 v2 hv2
+    have hs1 : Suffix buf pos (w1 ++ h1 :: (w2 ++ h2 :: (r ++ rest))) := by simpa using hs
+    have hs2 : Suffix buf (pos + w1.length + 1) (w2 ++ h2 :: (r ++ rest)) := by
+      have := Suffix.drop (a := w1 ++ [h1]) (by simpa using hs1)
+      simpa [Nat.add_assoc] using this
+    have hs3 : Suffix buf (pos + w1.length + 1 + w2.length + 1) (r ++ rest) := by
+      have := Suffix.drop (a := w2 ++ [h2]) (by simpa using hs2)
+      simpa [Nat.add_assoc] using this
+    have := ih buf base (pos + w1.length + 1 + w2.length + 1) rest ((v1 * 16 + v2) :: acc) fuel hs3 (by omega)
+      (by simp at hf; omega)
+    simp [collectHex, nextHexByte, nextNonWs_at w1 h1 _ hw1 nw1 pos hs1, ne1, d1,
+      nextNonWs_at w2 h2 _ hw2 nw2 _ hs2, ne2, d2, nibble_combine2' v1 v2 l1 l2, this]
+    omega
+  | odd w1 w2 h1 v1 hw1 hw2 hv1 =>
+    intro buf base pos rest acc fuel hs hb hf
+    obtain ⟨fuel, rfl⟩ : ∃ f', fuel = f' + 1 := ⟨fuel - 1, by omega⟩
+    obtain ⟨fuel, rfl⟩ : ∃ f', fuel = f' + 1 := ⟨fuel - 1, by simp at hf; omega⟩
+    obtain ⟨d1, l1, nw1, ne1⟩ := hexVal_facts h1 v1 hv1
+    have hs1 : Suffix buf pos (w1 ++ h1 :: (w2 ++ 62 :: rest)) := by simpa using hs
+    have hs2 : Suffix buf (pos + w1.length + 1) (w2 ++ 62 :: rest) := by
+      have := Suffix.drop (a := w1 ++ [h1]) (by simpa using hs1)
+      simpa [Nat.add_assoc] using this
+    have hs3 : Suffix buf (pos + w1.length + 1 + w2.length) ([] ++ 62 :: rest) := by
+      have := Suffix.drop (a := w2) (by simpa using hs2)
+      simpa [Nat.add_assoc] using this
+    have hback : hexBack base (pos + w1.length + 1 + w2.length + 1) = .ok (pos + w1.length + 1 + w2.length) := by
+      simp [hexBack]; omega
+    simp [collectHex, nextHexByte, nextNonWs_at w1 h1 _ hw1 nw1 pos hs1, ne1, d1,
+      nextNonWs_at w2 62 _ hw2 (by decide) _ hs2, hback, nibble_shift' v1 l1,
+      nextNonWs_at [] 62 rest (by intro b hb; simp at hb) (by decide) _ hs3]
+    omega
+
 end PdfLex
